@@ -44,10 +44,26 @@ class DlMain(FactRule):
             return None
         return ts
 
+    def on_assign(self, ctx, lhs, rhs, op, value, ts):
+        if ctx.fn is self.fn and last_field(lhs) == 'fail_no_ranges' and op == '=':
+            self.rejects200 = getattr(self, 'rejects200', 0) + 1
+            cv = const_value(rhs) if rhs is not None else None
+            if cv is not None and cv != 0:
+                ts = ts | frozenset(['reject-200'])
+            else:
+                ts = ts - frozenset(['reject-200'])
+        return ts
+
     def on_call(self, ctx, call, ts):
         if ctx.fn is not self.fn:
             return ts
         n = callee_name(call)
+        if n == 'dl_range' and 'reject-200' not in ts:
+            self.violate(ctx, 'range-accepts-200', 'dl_range() is reachable with the download context\'s fail_no_ranges '
+                         'not set to a non-zero constant: a server that answers 200 with the whole file (too many '
+                         'ranges) has its body fed to the range write callback, which maps the bytes to chunks by '
+                         'counting - chunks are filled from the wrong bytes, fail and are zeroed, instead of the '
+                         'request being retried with fewer ranges', inst='reject-200')
         if n == 'zck_get_missing_range':
             self.range_calls += 1
             if 'scanned' not in ts:
@@ -139,7 +155,11 @@ def check_protocol(ck, prog, config, clauses):
         'gate': 'exit status 0 only through a whole-file gate',
         'truncate': 'exit status 0 only after ftruncate(dst_fd, zck_get_length(tgt))',
         'complete': 'exit status 0 only when no chunk is missing',
+        'reject-200': 'every range request is made with fail_no_ranges set: a 200 answer aborts the transfer instead of '
+                      'being written as range data',
     }
+    if 'reject-200' in clauses:
+        ck.require(getattr(r, 'rejects200', 0) >= 1, 'zckdl main no longer sets fail_no_ranges on its download context')
     for inst, clause in clauses.items():
         v = by.get(inst)
         ck.ob(clause, 'R2.protocol', 'zckdl main', inst, v is None, texts[inst] if v is None else v.msg, fn.file,
